@@ -1,6 +1,6 @@
 (* C01 — every PEL section is decoded once, in order, from exactly its own bytes. *)
 From Coq Require Import List NArith ZArith Bool Arith.
-From PV Require Gen.Layouts Spec.PublishedLayouts Proofs.LayoutFacts Gen.Sections Spec.PublishedSections Proofs.SectionFacts.
+From PV Require Gen.Layouts Spec.PublishedLayouts Proofs.LayoutFacts Gen.Sections Spec.PublishedSections Proofs.SectionFacts Model.StreamProg Gen.Readers Proofs.ReaderSectFacts.
 From PV Require Import Base.Bytes Base.Lit Base.Json Base.Utf8 Base.Reader Base.PelTypes
                        Model.Parse Model.Render Model.Pel Model.Env Spec.Encode Spec.DocOf Spec.Choice Gen.Tables
                        Proofs.ParseFacts Proofs.SrcFacts Proofs.PelFacts Proofs.RenderFacts Proofs.NumberFacts Proofs.NumberDistinct.
@@ -126,6 +126,37 @@ Theorem C01_dispatch_is_model : forall id len,
   SectionFacts.reader_of_class (SectionFacts.class_of Gen.Sections.section_dispatch Gen.Sections.section_default id) len.
 Proof. exact SectionFacts.parse_body_is_dispatch. Qed.
 Print Assumptions C01_dispatch_is_model.
+
+(* SOURCE-TEXT tie of the Impacted Partition section.  harness/extract_readers.py translates the statements ImpactedPartition.toJSON
+   runs against self.stream (four fixed fields, the name when its length is non-zero, `for _ in range(count)` appending two-byte
+   targets, two pad bytes after an odd count; what follows only builds the display) into a program of Model/StreamProg.v; for
+   EVERY byte string running it is the model's parse_lp: same fields, name bytes, targets in order, pad, and bytes left; a
+   DataStream assertion is the model's rejection. *)
+Theorem C01_source_lp_reader : forall d,
+  match StreamProg.run Gen.Readers.prog_lp (StreamProg.init d) with
+  | StreamProg.RFall s => parse_lp d = Some (ReaderSectFacts.lp_of s, StreamProg.s_rest s)
+  | StreamProg.RErr => parse_lp d = None
+  | _ => False
+  end.
+Proof. exact ReaderSectFacts.lp_prog_correct. Qed.
+Print Assumptions C01_source_lp_reader.
+
+(* SOURCE-TEXT tie of the three length-driven consumers, beyond the layout table of C01_source_length_driven: the constructors of
+   UserData, ExtUserData and Default as translated by harness/extract_readers.py, started with their parameters bound to the
+   section-header fields, take from the stream exactly what the model's body readers take, for EVERY declared length and byte
+   string: sectionLen - 8 bytes (after the creator and the two reserved fields: sectionLen - 12 for Extended User Data); a length
+   that leaves nothing, or more than the data holds, is the DataStream assertion and the model's rejection. *)
+Theorem C01_source_payload_readers : forall d id len ver sub comp cr,
+  ReaderSectFacts.payload_agrees (StreamProg.run Gen.Readers.prog_ud (ReaderSectFacts.param_state d id len ver sub comp cr))
+                                 (get_memN (len - 8) d) /\
+  ReaderSectFacts.payload_agrees (StreamProg.run Gen.Readers.prog_dflt (ReaderSectFacts.param_state d id len ver sub comp cr))
+                                 (get_memN (len - 8) d) /\
+  ReaderSectFacts.ed_agrees (StreamProg.run Gen.Readers.prog_ed (ReaderSectFacts.param_state d id len ver sub comp cr))
+                            (ReaderSectFacts.ed_reader len d).
+Proof.
+  intros. split; [apply ReaderSectFacts.ud_prog_correct|split; [apply ReaderSectFacts.dflt_prog_correct|apply ReaderSectFacts.ed_prog_correct]].
+Qed.
+Print Assumptions C01_source_payload_readers.
 
 Theorem C01_header_reader_is_layout : forall s,
   parse_header s = match LayoutFacts.read_fields Spec.PublishedLayouts.rd_parseHeader s with
